@@ -154,7 +154,7 @@ def query_everything(c: Converter, strings, pairs=()) -> None:
                 pass
 
 
-BUILD_MODES = ["at-once", "at-once", "incremental", "chain"]
+BUILD_MODES = ["at-once", "at-once", "incremental", "chain", "split-merge"]
 
 
 def mk_converter_via(spec: dict, mode: str = "at-once") -> Converter:
@@ -167,6 +167,8 @@ def mk_converter_via(spec: dict, mode: str = "at-once") -> Converter:
                    synonym (only for the default delimiter, since chain does not propagate a delimiter)
     """
     d = spec.get("delimiter", ":")
+    if mode == "split-merge":
+        return mk_split_merge(spec)
     if mode == "incremental" or (mode == "chain" and d != ":"):
         return mk_incremental_queried(spec, range(len(spec["records"])), lambda c: None)
     if mode == "chain":
@@ -180,3 +182,24 @@ def mk_converter_via(spec: dict, mode: str = "at-once") -> Converter:
                 extra.append(Converter([mk_bare_record(r["prefix"], syn)]))
         return curies.chain([base, *extra]) if extra or recs else Converter([])
     return mk_converter(spec)
+
+
+def mk_split_merge(spec: dict) -> Converter:
+    """Every record with a prefix synonym is split into two whole records that are merged again by add_record(merge=True):
+    R1 keeps the canonical values and every other synonym, R2 is *named after one of the prefix synonyms*, shares R1's
+    canonical URI prefix (so it matches exactly R1) and brings the remaining synonyms as its own synonyms. The merged
+    result denotes the same records as ``spec`` - but the incoming record has a different canonical prefix and synonyms
+    of its own, which is the shape index-maintenance shortcuts get wrong."""
+    d = spec.get("delimiter", ":")
+    firsts, seconds = [], []
+    for r in spec["records"]:
+        ps, us = list(r["prefix_synonyms"]), list(r["uri_prefix_synonyms"])
+        if not ps:
+            firsts.append(mk_record(r))
+            continue
+        firsts.append(mk_record({"prefix": r["prefix"], "uri_prefix": r["uri_prefix"], "prefix_synonyms": ps[1::2], "uri_prefix_synonyms": us[0::2], "pattern": r.get("pattern")}))
+        seconds.append(mk_record({"prefix": ps[0], "uri_prefix": r["uri_prefix"], "prefix_synonyms": ps[2::2], "uri_prefix_synonyms": us[1::2]}))
+    c = Converter(firsts, delimiter=d)
+    for r2 in seconds:
+        c.add_record(r2, merge=True)
+    return c
